@@ -233,6 +233,7 @@ class _World:
             self._settle()
             return d
         if c == "s":
+            self.note("prefired-deferred")
             d = defer.succeed(None)
             t.yielded.append(d)
             return d
@@ -567,11 +568,13 @@ class TwoTaskInterleavings(_Base):
     title = ("two (thorough: also three) scripted tasks, k in 1..3, under every short interleaving of tick and "
              "per-task pause/resume/stop/fire: real Cooperator vs. the model, incl. bounded-wait fairness")
     scope = ("2 tasks (cooperate+cooperate and cooperate+coiterate), k in {1,2,3}; scripts from "
-             "{vE, vvvE, dE, dvE, sE, X, dX}; every history of length <=3 (thorough: <=4, and 3 tasks with "
+             "{vE, v^8E, dE, dvE, sE, X, dX}; every history of length <=3 (thorough: <=4, and 3 tasks with "
              "histories <=3) over T and P/R/S/O/F per task handle, then drained; starvation bound "
              "%d*N+%d work units" % (STARVE_FACTOR, STARVE_SLACK))
 
-    SCRIPTS = [("v", "E"), ("v", "v", "v", "E"), ("d", "E"), ("d", "v", "E"), ("s", "E"), ("X",), ("d", "X")]
+    # the long one is longer than the starvation bound for 2 tasks, so a scheduler that keeps serving one
+    # task while the other is runnable is caught
+    SCRIPTS = [("v", "E"), ("v",) * 8 + ("E",), ("d", "E"), ("d", "v", "E"), ("s", "E"), ("X",), ("d", "X")]
 
     def cases(self, tier, rng):
         for modes in (("c", "c"), ("c", "i")):
